@@ -38,6 +38,7 @@ CONSTANTS
   SnapChunk,      \* logCompactionBatchSize (bytes per snapshot chunk)
   Journal,        \* nodes keep a file journal (and can be crashed / restarted)
   DumpFile,       \* nodes keep their snapshot in a dump file (else in memory)
+  QuietCids,      \* ids of commands submitted during a quiet period (C05: they must succeed)
   VersionedCids,  \* ids of calls to a method that exists in several code versions
   Raisers,        \* ids of regular commands whose replicated method raises when executed (on every replica)
   SpecialCids,    \* callback ids of submissions that are not regular commands (membership, version)
@@ -659,7 +660,8 @@ Hello(i, j) ==
        /\ UNCHANGED <<alive, cbs, nexc, snaps>>
   ELSE IF i \in node[j].others
   THEN /\ up' = up \cup {<<j, i>>}
-       /\ node' = [node EXCEPT ![j].conn = @ \cup {i}]
+       \* (a snapshot transfer to i does not survive the reconnect: it restarts from the first piece)
+       /\ node' = [node EXCEPT ![j] = [@ EXCEPT !.conn = @ \cup {i}, !.trans = IF i \in DOMAIN @ THEN RemoveKey(@, i) ELSE @]]
        /\ chan' = [chan EXCEPT ![i][j] = Tail(@)]
        /\ UNCHANGED <<alive, cbs, nexc, snaps>>
   ELSE \* unknown address: the acceptor closes the connection
@@ -769,7 +771,7 @@ Connect(i, j) ==
   /\ alive' = alive \cup {{i, j}}
   /\ up' = up \cup {<<i, j>>}
   /\ chan' = [chan EXCEPT ![i][j] = <<[t |-> "hello"]>>, ![j][i] = <<>>]
-  /\ node' = [node EXCEPT ![i].conn = @ \cup {j}]
+  /\ node' = [node EXCEPT ![i] = [@ EXCEPT !.conn = @ \cup {j}, !.trans = IF j \in DOMAIN @ THEN RemoveKey(@, j) ELSE @]]
   /\ UNCHANGED <<cbs, nexc, snaps>>
 
 =============================================================================
